@@ -3,8 +3,10 @@
    SQLSem.  trace.ndjson lines:
      {"ev":"db",  "db": {<table>: {"w": n, "rows": [[v..]..]}}}     -- the database of the following cases
      {"ev":"q",   "id": n, "q": <query AST>, "res": {"kind":"rows","rows":[..]} | {"kind":"err","msg":..}}
-     {"ev":"same","id": n, "qs": [<query AST>..], "ress": [<res>..]}  -- several formulations / plans of
-            one meaning: every result must be an acceptable result of qs[i] (C01, C06)
+     {"ev":"same","id": n, "qs": [<query AST>..], "ress": [<res>..]}  -- several formulations of one
+            meaning: every result must be an acceptable result of qs[i] (C06)
+     {"ev":"multi","id": n, "q": <query AST>, "ress": [<res>..]}       -- one query under several physical
+            plans: every result must be an acceptable result of q (C01)
    Every line is consumed; a disagreement prints `MM <json>` and validation continues. *)
 EXTENDS SQLSem, Json
 
@@ -26,6 +28,11 @@ Judge(e) ==
           IF bad = {} THEN TRUE
           ELSE PrintT("MM " \o ToJson([l |-> l, id |-> e.id, what |-> "variant", bad |-> bad,
                                         exp |-> Rows(e.qs[CHOOSE i \in bad : TRUE], <<>>, db)])))
+    [] e.ev = "multi" ->      \* one query executed under several plans / steerings (C01)
+         (LET bad == {i \in DOMAIN e.ress : ~OkRes(e.q, e.ress[i])} IN
+          IF bad = {} THEN TRUE
+          ELSE PrintT("MM " \o ToJson([l |-> l, id |-> e.id, what |-> "plan-variant", bad |-> bad,
+                                        exp |-> Rows(e.q, <<>>, db)])))
     [] OTHER -> TRUE
 
 Next ==
